@@ -30,7 +30,7 @@ namespace {
 // ---------------------------------------------------------------------- plan
 // cfg part: 0 = framing, 1 = requests.   cfg proto: 0 header-stream, 1 raw-stream, 2 packet
 // framing ops:  msg <kind 0 req,1 result,2 error,3 notify> <id> <seed>     raw <seed> <len>     hdr <magic_ok> <lenkind>     mut <pos> <val>     seg <size>
-// request ops:  call <dt_ms> <method 0 echo,1 later,2 twice,3 never,4 badid,5 unknown> <seed> <withcb> <delay_ms>     seg <size>
+// request ops:  call <dt_ms> <method 0 echo,1 later,2 twice,3 never,4 badid,5 unknown> <seed> <withcb> <delay_ms> <retry_on_timeout>     seg <size>
 void generate(sim::Rng &r, uint64_t seed, const std::string &tier, sim::Plan &p) {
   bool thorough = tier == "thorough";
   long part = r.chance(450) ? 1 : 0;
@@ -68,7 +68,7 @@ void generate(sim::Rng &r, uint64_t seed, const std::string &tier, sim::Plan &p)
     for (int i = 0; i < n; ++i) {
       sim::Op op; op.kind = "call";
       long dt = r.chance(400) ? 0 : r.chance(600) ? r.range(1, 400) : r.range(400, 3000);
-      op.a = {dt, (long)r.below(6), (long)(r.next() & 0xffffff), r.chance(850) ? 1 : 0, r.pick((const long[]){1, 10, 500, 1200, 2500, 6000})};
+      op.a = {dt, (long)r.below(6), (long)(r.next() & 0xffffff), r.chance(850) ? 1 : 0, r.pick((const long[]){1, 10, 500, 1200, 2500, 6000}), r.chance(350) ? 1 : 0};   // last: re-issue the request from inside the callback when it times out
       p.ops.push_back(op);
     }
     int ns = (int)r.range(1, 6);
@@ -359,6 +359,34 @@ int64_t link_next_due() {
 
 Json expected_result_of(long seed) { sim::Rng jr((uint64_t)seed + 5); return gen_json(jr, 1); }
 
+static const char *MN[] = {"echo", "later", "twice", "never", "badid", "nosuchmethod"};
+
+// issue one request on endpoint A; `retries` > 0: when the callback reports a time-out, the same request is issued
+// again from inside that callback (the usual "retry on time-out" pattern)
+void issue_call(long method, long seed, bool withcb, long delay_ms, int retries) {
+  Call c;
+  c.t_call = sim::now_ns();
+  c.method = method; c.seed = seed; c.withcb = withcb;
+  Json v = expected_result_of(c.seed);
+  Json params = v;
+  if (c.method == 1 || c.method == 2) { params = Json::object(); params["v"] = v; params["d"] = delay_ms; }
+  c.expect_result = v.dump();
+  size_t idx = R->calls.size();
+  if (c.withcb) {
+    c.rpc_id = (int)R->by_rpc_id.size() + 1;        // Rpc allocates 1,2,3,... for requests with a callback
+    R->by_rpc_id[c.rpc_id] = idx;
+  }
+  R->calls.push_back(c);
+  sim::relevant();
+  if (c.withcb) {
+    R->ra->request(MN[c.method], params, [idx, method, seed, delay_ms, retries](int err, const Json &res) {
+      { Call &cc = R->calls[idx]; ++cc.callbacks; cc.t_cb = sim::now_ns(); cc.cb_err = err; cc.cb_result = res.dump(); }
+      sim::trace("callback call#%zu err=%d", idx, err);
+      if (err == ErrorCode::kRequestTimeout && retries > 0 && R->calls.size() < 40) { sim::probe("retry_from_timeout_callback"); issue_call(method, seed, true, delay_ms, retries - 1); }
+    });
+  } else R->ra->notify(MN[c.method], params);
+}
+
 void run_requests(const sim::Plan &plan) {
   RpcWorld W;
   R = &W;
@@ -400,40 +428,15 @@ void run_requests(const sim::Plan &plan) {
   static drv::Timeline tl;
   tl = drv::Timeline();
   int64_t t = sim::now_ns();
-  static const char *MN[] = {"echo", "later", "twice", "never", "badid", "nosuchmethod"};
   for (size_t i = 0; i < plan.ops.size(); ++i) {
     const sim::Op *op = &plan.ops[i];
     if (op->kind != "call") continue;
     t += std::max(0L, std::min(10000L, op->arg(0))) * 1000000;
     tl.at(t, [op] {
-      R->loop->runInLoop([op] {
-        Call c;
-        c.t_call = sim::now_ns();
-        c.method = ((op->arg(1) % 6) + 6) % 6;
-        c.seed = op->arg(2);
-        c.withcb = op->arg(3) != 0;
-        Json v = expected_result_of(c.seed);
-        Json params = v;
-        if (c.method == 1 || c.method == 2) { params = Json::object(); params["v"] = v; params["d"] = std::max(1L, std::min(20000L, op->arg(4))); }
-        c.expect_result = v.dump();
-        size_t idx = R->calls.size();
-        if (c.withcb) {
-          c.rpc_id = (int)R->by_rpc_id.size() + 1;        // Rpc allocates 1,2,3,... for requests with a callback
-          R->by_rpc_id[c.rpc_id] = idx;
-        }
-        R->calls.push_back(c);
-        sim::relevant();
-        if (c.withcb) {
-          R->ra->request(MN[c.method], params, [idx](int err, const Json &res) {
-            Call &cc = R->calls[idx];
-            ++cc.callbacks; cc.t_cb = sim::now_ns(); cc.cb_err = err; cc.cb_result = res.dump();
-            sim::trace("callback call#%zu err=%d", idx, err);
-          });
-        } else R->ra->notify(MN[c.method], params);
-      }, "c14.call");
+      R->loop->runInLoop([op] { issue_call(((op->arg(1) % 6) + 6) % 6, op->arg(2), op->arg(3) != 0, std::max(1L, std::min(20000L, op->arg(4))), op->arg(5) != 0 ? 1 : 0); }, "c14.call");
     }, (int)i);
   }
-  int64_t t_end = t + (timeout_s + 9) * 1000000000LL;
+  int64_t t_end = t + (2 * timeout_s + 9) * 1000000000LL;
   bool exit_posted = false;
   sim::set_prewait_hook([&](uint64_t pass) -> sim::HookResult {
     sim::HookResult r;
